@@ -268,3 +268,13 @@ pub fn take_pushes(id: usize) -> Vec<usize> {
 	let mut g = PUSH_LOG.lock().unwrap_or_else(|e| e.into_inner());
 	g.get_or_insert_with(HashMap::new).remove(&id).unwrap_or_default()
 }
+
+/// `wait_quiescent` with a generous limit; a timeout means the harness lost control of the
+/// schedule (machine overloaded), which makes the case inconclusive rather than failed
+pub fn settle(streams: &[(usize, Arc<DecoderLog>)]) -> Result<(), crate::engine::Failure> {
+	if wait_quiescent(streams, Duration::from_secs(30)) {
+		Ok(())
+	} else {
+		Err(crate::engine::Failure::new("inconclusive", "inconclusive", "a decoder thread did not reach its scheduling point within 30 s"))
+	}
+}
